@@ -115,6 +115,139 @@ theorem IntTok.notStmt {s : String} {i : Int} (h : IntTok s i) : s ∉ stmtKeywo
   have hs := h.notSym
   rcases hm with e | e | e | e | e | e | e | e | e <;> (subst e; revert hs; decide)
 
+theorem digit_not_symStart' {c : Char} (h : c.isDigit = true) : Parse.isSymStart c = false := by
+  simp only [Char.isDigit, Bool.and_eq_true, decide_eq_true_eq, ge_iff_le, UInt32.le_iff_toNat_le] at h
+  have h0 : ('0' : Char).val.toNat = 48 := by decide
+  have h9 : ('9' : Char).val.toNat = 57 := by decide
+  rw [h0, h9] at h
+  cases hs : Parse.isSymStart c with
+  | false => rfl
+  | true =>
+    simp only [Parse.isSymStart, Char.isAlpha, Char.isUpper, Char.isLower, Bool.or_eq_true, decide_eq_true_eq, ge_iff_le,
+      UInt32.le_iff_toNat_le, beq_iff_eq] at hs
+    have hA : ('A' : Char).val.toNat = 65 := by decide
+    have hZ : ('Z' : Char).val.toNat = 90 := by decide
+    have ha : ('a' : Char).val.toNat = 97 := by decide
+    have hz : ('z' : Char).val.toNat = 122 := by decide
+    rw [hA, hZ, ha, hz] at hs
+    rcases hs with (hs | hs) | hs
+    · exfalso; omega
+    · simp only [Bool.and_eq_true, decide_eq_true_eq] at hs; exfalso; omega
+    · subst hs; revert h; decide
+
+theorem dropDU_digits (r : List Char) (h : ∀ c ∈ r, c.isDigit = true) : dropDigitsUnderscore r = [] := by
+  induction r with
+  | nil => rfl
+  | cons c r ih =>
+    have hc := h c (List.mem_cons_self ..)
+    simp [dropDigitsUnderscore, hc, ih (fun x hx => h x (List.mem_cons_of_mem _ hx))]
+
+theorem digitsToNat_eq (ds : List Char) : digitsToNat ds = Nat.ofDigitChars 10 ds 0 := by
+  unfold digitsToNat Nat.ofDigitChars
+  have : (fun (a : Nat) (c : Char) => a * 10 + (c.toNat - 48)) = (fun sofar c => 10 * sofar + (c.toNat - '0'.toNat)) := by
+    funext a c
+    have : ('0' : Char).toNat = 48 := by decide
+    rw [this, Nat.mul_comm]
+  rw [this]
+
+/-- The decimal digits of a natural number, as the parser's classification functions see them. -/
+theorem digits_facts (n : Nat) :
+    ∃ d r, Nat.toDigits 10 n = d :: r ∧ d.isDigit = true ∧ (∀ c ∈ r, c.isDigit = true) ∧
+      (d :: r).filter (· != '_') = d :: r ∧ digitsToNat (d :: r) = n := by
+  have hne := Nat.toDigits_ne_nil (n := n) (b := 10)
+  cases hds : Nat.toDigits 10 n with
+  | nil => exact absurd hds hne
+  | cons d r =>
+    have hall : ∀ c ∈ d :: r, c.isDigit = true := by
+      intro c hc; rw [← hds] at hc
+      exact Nat.isDigit_of_mem_toDigits (by decide) (by decide) hc
+    refine ⟨d, r, rfl, hall d (List.mem_cons_self ..), fun c hc => hall c (List.mem_cons_of_mem _ hc), ?_, ?_⟩
+    · rw [List.filter_eq_self]
+      intro c hc
+      have : c ≠ '_' := by
+        intro e; subst e
+        rw [← hds] at hc
+        exact Nat.underscore_not_in_toDigits hc
+      simpa using this
+    · rw [digitsToNat_eq, ← hds]; exact Nat.ofDigitChars_ten_toDigits
+
+theorem digit_ne {c : Char} (h : c.isDigit = true) : c ≠ '-' ∧ c ≠ '"' ∧ c ≠ '_' := by
+  refine ⟨?_, ?_, ?_⟩ <;> (intro e; subst e; revert h; decide)
+
+/-- **Every i64 value's decimal text is read back by the parser as that value**: it is classified as
+an integer token (not a symbol, string or float token) and `parseI64` returns the value. -/
+theorem intTok_of_i64 (i : Int) (hlo : -9223372036854775808 ≤ i) (hhi : i ≤ 9223372036854775807) :
+    IntTok (toString i) i := by
+  rw [Int.toString_eq_repr, Int.repr_eq_if]
+  by_cases hi : 0 ≤ i
+  · simp only [hi, ↓reduceIte]
+    obtain ⟨d, r, hds, hd, hr, hfil, hval⟩ := digits_facts i.toNat
+    have hl : (i.toNat.repr).toList = d :: r := by rw [Nat.toList_repr]; exact hds
+    obtain ⟨n1, n2, n3⟩ := digit_ne hd
+    have hdd := dropDU_digits r hr
+    refine ⟨?_, ?_, ?_, ?_, ?_⟩
+    · simp only [isIntTok, hl]
+      split
+      · rename_i heq; injection heq with h1 _; exact absurd h1 n1
+      · rename_i heq; injection heq with h1 _; subst h1; exact hd
+      · rename_i heq; cases heq
+    · simp [isSymbolTok, hl, digit_not_symStart' hd]
+    · simp only [isStringTok, hl]
+      split
+      · rename_i heq; injection heq with h1 _; exact absurd h1 n2
+      · rfl
+    · simp only [isFloatTok, hl, isFloatChars]
+      split
+      · rename_i heq
+        split at heq
+        · rename_i h2; injection h2 with h3 _; exact absurd h3 n1
+        · cases heq; simp [hdd]
+      · rfl
+    · simp only [parseI64, hl, hfil]
+      have hall : (d :: r).all Char.isDigit = true := by
+        rw [List.all_eq_true]; intro c hc
+        rcases List.mem_cons.mp hc with rfl | hc
+        · exact hd
+        · exact hr c hc
+      have hnn : ((i.toNat : Nat) : Int) = i := Int.toNat_of_nonneg hi
+      split
+      · rename_i heq; injection heq with h1 _; exact absurd h1 n1
+      · simp only [List.isEmpty_cons, hall, Bool.not_true, Bool.or_self, Bool.false_eq_true, ↓reduceIte, hval, hnn]
+        simp [hlo, hhi]
+  · simp only [hi, ↓reduceIte]
+    obtain ⟨d, r, hds, hd, hr, hfil, hval⟩ := digits_facts (-i).toNat
+    have hl : ("-" ++ ((-i).toNat.repr)).toList = '-' :: d :: r := by
+      simp [String.toList_append, Nat.toList_repr, hds]
+    obtain ⟨n1, n2, n3⟩ := digit_ne hd
+    have hdd := dropDU_digits r hr
+    refine ⟨?_, ?_, ?_, ?_, ?_⟩
+    · simp [isIntTok, hl, hd]
+    · simp [isSymbolTok, hl, isSymStart]
+    · simp [isStringTok, hl]
+    · simp [isFloatTok, hl, isFloatChars, hd, hdd]
+    · simp only [parseI64, hl]
+      have hf : ('-' :: d :: r).filter (· != '_') = '-' :: d :: r := by
+        rw [List.filter_cons]; simp [hfil]
+      rw [hf]
+      simp only []
+      have hall : (d :: r).all Char.isDigit = true := by
+        rw [List.all_eq_true]; intro c hc
+        rcases List.mem_cons.mp hc with rfl | hc
+        · exact hd
+        · exact hr c hc
+      simp only [List.isEmpty_cons, hall, Bool.not_true, Bool.or_self, Bool.false_eq_true, ↓reduceIte, hval]
+      have : -(((-i).toNat : Nat) : Int) = i := by
+        have := Int.toNat_of_nonneg (a := -i) (by omega)
+        omega
+      rw [this]
+      simp [hlo, hhi]
+
+
+/-- The integers Garden can hold. -/
+def I64 (i : Int) : Prop := -9223372036854775808 ≤ i ∧ i ≤ 9223372036854775807
+
+theorem I64.tok {i : Int} (h : I64 i) : IntTok (toString i) i := intTok_of_i64 i h.1 h.2
+
 theorem ValidName.notStmt {x : String} (h : ValidName x) : x ∉ stmtKeywords := by
   intro hm
   simp [stmtKeywords] at hm
@@ -231,7 +364,7 @@ def TA (ln : Nat) (first : Bool) (args : List Expr) : List Tok := lexOf ln (prin
 chain of operands. A binary operator's RIGHT child must be an operand (an unparenthesised
 right-nested chain is not expressible without parentheses). -/
 inductive WF : Bool → Expr → Prop
-  | int {i : Int} : IntTok (toString i) i → WF true (.intLit i)
+  | int {i : Int} : I64 i → WF true (.intLit i)
   | var {x : String} : ValidName x → WF true (.var x)
   | call {f : Expr} {args : List Expr} : WF true f → (∀ a ∈ args, WF false a) → WF true (.call f args)
   | paren {e : Expr} : WF false e → WF true (.paren e)
@@ -305,6 +438,7 @@ theorem WF.first_tok {c : Bool} {e : Expr} (h : WF c e) :
   induction h with
   | @int i hi =>
     intro ln first
+    replace hi := hi.tok
     exact ⟨_, _, T_int ln first i, ne_of_isIntTok hi.int (by decide), ne_of_isIntTok hi.int (by decide),
       ne_of_isIntTok hi.int (by decide), ne_of_isIntTok hi.int (by decide)⟩
   | @var x hx =>
@@ -639,7 +773,7 @@ theorem reach_call {f : Expr} {args : List Expr} {nf : Nat} (hf : WF true f) (ha
 /-- Every operand / chain of the fragment gets back into the trailing loop holding itself. -/
 theorem reach {c : Bool} {e : Expr} (h : WF c e) : ∃ n, ReachAll c e n := by
   induction h with
-  | int hi => exact ⟨3, reach_int hi⟩
+  | int hi => exact ⟨3, reach_int hi.tok⟩
   | var hx => exact ⟨3, reach_var hx⟩
   | call hf ha ihf iha =>
     obtain ⟨nf, hnf⟩ := ihf
